@@ -431,7 +431,7 @@ func genHistory(c *vh.Ctx, maxOps int) *history {
 			s := genLine(r, th)
 			if okForStdin([]byte(s), h.RSEmpty) {
 				o := oRead(s)
-				if h.Files && r.Intn(2) == 0 {
+				if r.Intn(2) == 0 {
 					o.Route = "m"
 				}
 				h.Ops = append(h.Ops, o)
